@@ -28,10 +28,20 @@
 (***************************************************************************)
 EXTENDS CommitLog
 
-VARIABLES cc, now, pend
-cvars == <<vars, cc, now, pend>>
+VARIABLES cc, now, pend, rr
+cvars == <<vars, cc, now, pend, rr>>
 
 NoPend == [on |-> FALSE, log |-> <<>>, segs |-> <<>>, hw |-> -1, now |-> 0]
+
+\* persistent reverse readers (ReverseReader): next = offset to deliver next (start,
+\* then last delivered - 1), floor = segment objects of the segment list the reader
+\* took when it was created with a base below it have been closed by a clean since
+\* (replaced, removed or deleted), dlow = lowest offset of a record those closed
+\* objects held (NoDead if none): the reader touches a closed object - and fails -
+\* only when it still has such a record to go to
+RevReaders == {"v1", "v2"}
+NoDead == 1000000
+NoRev == [alive |-> FALSE, next |-> -1, floor |-> -1, dlow |-> NoDead]
 
 SetMax(S) == CHOOSE x \in S : \A y \in S : y <= x
 SetMin(S) == CHOOSE x \in S : \A y \in S : x <= y
@@ -143,6 +153,88 @@ CleanSwap(p) ==
 
 Snapshot == [on |-> TRUE, log |-> log, segs |-> segs, hw |-> hw, now |-> now]
 
+\* reverse reader started at s: survivors at or below s, newest first; a
+\* committed one starts at the HW when s is beyond it (or s = -1)
+RevStart(h, s, committed) == IF committed /\ (s > h \/ s = -1) THEN h ELSE s
+ExpectedRev(l, h, s, committed) ==
+  LET e  == RevStart(h, s, committed)
+      up == SelectSeq(l, LAMBDA r : r.off <= e)
+  IN [i \in 1..Len(up) |-> up[Len(up) - i + 1]]
+
+\* NewReverseReader fails when no segment ends after the start offset
+RevKind(l, ss, h, s, committed) ==
+  IF committed /\ h = -1 THEN "err"
+  ELSE IF FindSeg(l, ss, RevStart(h, s, committed)) = 0 THEN "err" ELSE "ok"
+
+\* ---- persistent reverse readers and cleans
+\* A ReverseReader keeps the segment list (the segment objects) it found when it
+\* was created and never re-initialises.  A clean closes segment objects: the ones
+\* retention deletes and, when compaction runs, every non-last one (replaced by
+\* its rewritten copy or removed).  Reading such an object fails
+\* (ErrSegmentReplaced / ErrSegmentClosed): the reader delivers what it can read
+\* from the objects that are still open and then ends with that error, never
+\* with a silent end of the log.
+FloorOf(p) ==
+  LET n  == Len(p.segs)
+      d  == RetainDrop(p.log, p.segs, cc, p.now - cc.age)
+  IN IF cc.compact /\ n - d > 1 THEN Last(p.segs).base ELSE p.segs[d + 1].base
+
+DeadLow(p) == LET D == {p.log[i].off : i \in {i \in DOMAIN p.log : p.log[i].off < FloorOf(p)}}
+              IN IF D = {} THEN NoDead ELSE SetMin(D)
+
+RevAfterClean(p) ==
+  [r \in RevReaders |->
+     IF rr[r].alive
+     THEN [rr[r] EXCEPT !.floor = IF FloorOf(p) > @ THEN FloorOf(p) ELSE @,
+                        !.dlow  = IF DeadLow(p) < @ THEN DeadLow(p) ELSE @]
+     ELSE rr[r]]
+
+\* NewReverseReader(s, committed); between snapshot and swap of a clean the segment
+\* list still names the objects that clean has closed
+RevNewVal(r, s, c) ==
+  [rr EXCEPT ![r] = IF RevKind(log, segs, hw, s, c) = "ok"
+      THEN [alive |-> TRUE, next |-> RevStart(hw, s, c),
+            floor |-> IF pend.on THEN FloorOf(pend) ELSE -1,
+            \* created between snapshot and swap: locating the start entry already
+            \* searches the index of the start segment - if that object is closed (and
+            \* not empty) the reader fails on its first read whatever its position
+            dlow  |-> IF ~pend.on THEN NoDead
+                      ELSE LET k == FindSeg(log, segs, RevStart(hw, s, c)) IN
+                           IF segs[k].base < FloorOf(pend) /\ SegRecs(log, segs, k) # <<>>
+                           THEN -2 ELSE DeadLow(pend)]
+      ELSE NoRev]
+DoNewRev(r, s, c) ==
+  /\ rr' = RevNewVal(r, s, c)
+  /\ obs' = [a |-> "NewRev", ret |-> <<>>,
+             err |-> IF RevKind(log, segs, hw, s, c) = "ok" THEN "" ELSE "reader"]
+  /\ UNCHANGED <<cfg, log, segs, hw, epochs, ro, rd, cc, now, pend>>
+
+RevAvail(r) == LET up == SelectSeq(log, LAMBDA x : x.off <= rr[r].next /\ x.off >= rr[r].floor)
+               IN [i \in 1..Len(up) |-> up[Len(up) - i + 1]]
+RevGot(r, all) == LET av == RevAvail(r) IN IF all \/ av = <<>> THEN av ELSE <<av[1]>>
+RevDone(r, all) == all \/ RevAvail(r) = <<>>
+RevReadVal(r, all) ==
+  [rr EXCEPT ![r] = IF RevDone(r, all) THEN NoRev ELSE [@ EXCEPT !.next = RevGot(r, all)[1].off - 1]]
+
+\* read one message (all = FALSE) or drain (all = TRUE)
+DoRevRead(r, all) ==
+  /\ rr[r].alive
+  /\ rr' = RevReadVal(r, all)
+  /\ obs' = [a |-> "RevRead", ret |-> Fps(RevGot(r, all)),
+             err |-> IF RevDone(r, all) /\ rr[r].dlow <= rr[r].next THEN "dead" ELSE ""]
+  /\ UNCHANGED <<cfg, log, segs, hw, epochs, ro, rd, cc, now, pend>>
+
+\* C08 for a persistent reverse reader: what it delivers is, in order, the retained
+\* records at or below its position; it may stop early only with an explicit error
+IsPrefixOf(a, b) == Len(a) <= Len(b) /\ a = SubSeq(b, 1, Len(a))
+P_RevRead(r, all) ==
+  LET up  == SelectSeq(log, LAMBDA x : x.off <= rr[r].next)
+      exp == Fps([i \in 1..Len(up) |-> up[Len(up) - i + 1]])
+  IN /\ log' = log /\ hw' >= hw
+     /\ IF obs'.err = ""
+        THEN obs'.ret = (IF all \/ exp = <<>> THEN exp ELSE <<exp[1]>>)
+        ELSE IsPrefixOf(obs'.ret, exp)
+
 OldestOf(l, ss) == IF SegRecs(l, ss, 1) = <<>> THEN -1 ELSE l[1].off     \* segments[0].FirstOffset()
 NewestOf(l, ss) == (IF SegRecs(l, ss, Len(ss)) = <<>> THEN Last(ss).base ELSE Last(l).off + 1) - 1
 
@@ -154,10 +246,12 @@ CInit ==
   /\ cc \in [age : {0}, msgs : {0}, bytes : {0}, compact : BOOLEAN, workers : {1}]
   /\ now = 10
   /\ pend = NoPend
+  /\ rr = [r \in RevReaders |-> NoRev]
 
 DoCleanBegin ==
   /\ ~pend.on
   /\ pend' = Snapshot
+  /\ rr' = RevAfterClean(Snapshot)
   /\ obs' = [a |-> "CleanBegin", ret |-> <<>>, err |-> ""]
   /\ UNCHANGED <<cfg, log, segs, hw, epochs, ro, rd, cc, now>>
 
@@ -167,19 +261,34 @@ DoCleanEnd ==
      /\ log' = r.log /\ segs' = r.segs /\ epochs' = r.epochs
      /\ obs' = [a |-> "CleanEnd", ret |-> <<OldestOf(r.log, r.segs), NewestOf(r.log, r.segs)>>, err |-> ""]
   /\ pend' = NoPend
-  /\ UNCHANGED <<cfg, hw, ro, rd, cc, now>>
+  /\ UNCHANGED <<cfg, hw, ro, rd, cc, now, rr>>
 
 DoClean ==
   /\ ~pend.on
   /\ LET r == CleanSwap(Snapshot) IN
      /\ log' = r.log /\ segs' = r.segs /\ epochs' = r.epochs
      /\ obs' = [a |-> "Clean", ret |-> <<OldestOf(r.log, r.segs), NewestOf(r.log, r.segs)>>, err |-> ""]
+  /\ rr' = RevAfterClean(Snapshot)
   /\ UNCHANGED <<cfg, hw, ro, rd, cc, now, pend>>
+
+\* Clean() during which the removal of the files of one doomed segment (the k-th of the
+\* list) fails once (transient I/O error): deleteSegments goes on with the other
+\* doomed segments and returns the error, Clean() returns it WITHOUT swapping the
+\* segment list ("the actual file deletion can be retried on the next cleanup
+\* cycle").  The log's segment list - the abstract state - is unchanged; the
+\* segment objects are closed.  The retry is an ordinary DoClean on that list: it
+\* must succeed (segment.Delete is idempotent) and leave what one clean would.
+DoCleanFail(k) ==
+  /\ ~pend.on
+  /\ k \in 1..RetainDrop(log, segs, cc, now - cc.age)
+  /\ rr' = RevAfterClean(Snapshot)
+  /\ obs' = [a |-> "CleanFail", ret |-> <<>>, err |-> "delete-failed"]
+  /\ UNCHANGED <<cfg, log, segs, hw, epochs, ro, rd, cc, now, pend>>
 
 DoTick(d) ==
   /\ now' = now + d
   /\ obs' = [a |-> "Tick", ret |-> <<>>, err |-> ""]
-  /\ UNCHANGED <<cfg, log, segs, hw, epochs, ro, rd, cc, pend>>
+  /\ UNCHANGED <<cfg, log, segs, hw, epochs, ro, rd, cc, pend, rr>>
 
 \* the commit-log actions, usable while a clean is pending.  Messages are
 \* stamped by the environment: the clock is never behind the newest timestamp
@@ -187,15 +296,15 @@ DoTick(d) ==
 ClockAfter(recs) == SetMax({now} \cup {recs[i].ts : i \in DOMAIN recs})
 CAppend(recs) == /\ DoAppend(recs)
                  /\ now' = (IF obs'.err = "" THEN ClockAfter(recs) ELSE now)
-                 /\ UNCHANGED <<cc, pend>>
-CAppendSet(recs) == DoAppendSet(recs) /\ now' = ClockAfter(recs) /\ UNCHANGED <<cc, pend>>
-CSetHW(h) == DoSetHW(h) /\ UNCHANGED <<cc, now, pend>>
+                 /\ UNCHANGED <<cc, pend, rr>>
+CAppendSet(recs) == DoAppendSet(recs) /\ now' = ClockAfter(recs) /\ UNCHANGED <<cc, pend, rr>>
+CSetHW(h) == DoSetHW(h) /\ UNCHANGED <<cc, now, pend, rr>>
 \* NewLeaderEpoch(e): recorded at NewestOffset() = NextOffset() - 1 of the active
 \* segment (on a log emptied by retention that is base - 1, not -1)
 CNewLeaderEpoch(e) ==
   /\ epochs' = Assign(epochs, e, NewestOf(log, segs))
   /\ obs' = [a |-> "NewLeaderEpoch", ret |-> <<>>, err |-> ""]
-  /\ UNCHANGED <<cfg, log, segs, hw, ro, rd, cc, now, pend>>
+  /\ UNCHANGED <<cfg, log, segs, hw, ro, rd, cc, now, pend, rr>>
 \* Persistent readers (reader.go).  A clean does not touch the abstract reader
 \* state: a reader whose segment was replaced by compaction (or removed because
 \* nothing in it survived: cleanupEmptySegment marks it replaced) gets
@@ -205,11 +314,13 @@ CNewLeaderEpoch(e) ==
 \* models only use persistent readers without retention limits.)  Not used
 \* while a clean is between snapshot and swap: the segment list still names
 \* the closed segments then and re-initialisation fails.
-CNewReader(r, s, c) == ~pend.on /\ DoNewReader(r, s, c) /\ UNCHANGED <<cc, now, pend>>
-CDrain(r) == ~pend.on /\ DoDrain(r) /\ UNCHANGED <<cc, now, pend>>
+CNewReader(r, s, c) == ~pend.on /\ DoNewReader(r, s, c) /\ UNCHANGED <<cc, now, pend, rr>>
+CDrain(r) == ~pend.on /\ DoDrain(r) /\ UNCHANGED <<cc, now, pend, rr>>
 
 \* Close + New with the same options (not while a clean is pending)
-CReopen == ~pend.on /\ DoReopen /\ UNCHANGED <<cc, now, pend>>
+CReopen == /\ ~pend.on /\ DoReopen
+           /\ rr' = [r \in RevReaders |-> NoRev]       \* readers of the closed log are gone
+           /\ UNCHANGED <<cc, now, pend>>
 
 -----------------------------------------------------------------------------
 (* C08: what compaction must keep.  b = snapshot [log, segs, hw, now],      *)
@@ -325,18 +436,7 @@ P_Clean(b) ==
 -----------------------------------------------------------------------------
 (* Read-back: what a fresh reader must deliver on any (sparse) log *)
 
-\* reverse reader started at s: survivors at or below s, newest first; a
-\* committed one starts at the HW when s is beyond it (or s = -1)
-RevStart(h, s, committed) == IF committed /\ (s > h \/ s = -1) THEN h ELSE s
-ExpectedRev(l, h, s, committed) ==
-  LET e  == RevStart(h, s, committed)
-      up == SelectSeq(l, LAMBDA r : r.off <= e)
-  IN [i \in 1..Len(up) |-> up[Len(up) - i + 1]]
-
-\* NewReverseReader fails when no segment ends after the start offset
-RevKind(l, ss, h, s, committed) ==
-  IF committed /\ h = -1 THEN "err"
-  ELSE IF FindSeg(l, ss, RevStart(h, s, committed)) = 0 THEN "err" ELSE "ok"
+\* (reverse readers: RevStart, ExpectedRev, RevKind are defined with the actions above)
 
 \* timestamp look-ups (monotone timestamps): the offset returned must lead a
 \* reader to the right survivor; between survivors any offset will do
